@@ -26,15 +26,18 @@
 (*   (finalize_and_clear of pending ephemerons), then the same mark        *)
 (*   actions with pass = 2 (re-mark), Sweep, ClearWeakMaps.                *)
 (*                                                                         *)
-(* Patched = FALSE is the code as it is in the pinned tree: running the    *)
-(* finalizer of a node releases (dec_ref_count) every handle the node      *)
-(* owns, and the re-mark uses the non_root_counts of the first pass.       *)
-(* That is only correct when no finalizer creates a handle on a node of    *)
-(* the unreachable set (TLC shows the counterexample with AllowArm = TRUE: *)
-(* MCGcImpl_defect.cfg).  Patched = TRUE is the repaired order             *)
-(* (work/proposals/C09-1): finalizers do not release, the re-mark recounts,*)
-(* and handles owned by the boxes about to be swept are released after the *)
-(* re-mark.                                                                *)
+(* Patched = TRUE is the collector as it is in /repo now: finalizers do not *)
+(* release handles, the re-mark recounts the handles located in the heap   *)
+(* (reset_non_roots + trace_non_roots), and the handles owned by the boxes *)
+(* about to be swept are released after the re-mark (release_dead_handles).*)
+(* Patched = FALSE is the order of the original snapshot, kept to document *)
+(* the defect found with this model (work/proposals/C09-1): running the    *)
+(* finalizer of a node released (dec_ref_count) every handle the node      *)
+(* owns, and the re-mark used the non_root_counts of the first pass.  That *)
+(* is only correct when no finalizer creates a handle on a node of the     *)
+(* unreachable set: with AllowArm = TRUE TLC finds NoLiveFreed violated    *)
+(* after alloc 1; link 1 1; arm 1 1; droph 1; collect                      *)
+(* (MCGcImpl_defect.cfg, expected to fail).                                *)
 (*                                                                         *)
 (* Refinement: Ref!Spec (GcSpec) under the mapping at the end; while a     *)
 (* collection is running the abstract state is the snapshot taken when it  *)
